@@ -385,6 +385,7 @@ def opsOf (w : World) (op : String) (args tr : List String) : Option (List World
   | "rmclient", [k] => k.toNat?.map fun k => [.rmclient k]
   | "radput", [b] => some [.radput (b = "1")]
   | "udplisten", [] => some [.udplisten]
+  | "tcpconn", src :: evs => (match parseIPv4 src, parseEvs evs with | some src, some evs => some [orc, .tcpconn src evs] | _, _ => none)
   | "udpsend", [n, pkt] => (match n.toNat?, ofHex pkt with | some n, some pkt => some [orc, .udpsend n pkt] | _, _ => none)
   | _, _ => none
 
